@@ -117,6 +117,8 @@ def alphabet():
             ev.append(("set_symbol", ti, ni))
             ev.append(("set_sender", ti, ni))
             ev.append(("getitem0", ti, ni))
+            ev.append(("copy_nochildren", ti, ni))
+            ev.append(("copy_noparent", ti, ni))
             ev.append(("slice", ti, ni))
             ev.append(("split_end_copy", ti, ni))
             ev.append(("split_end_inplace", ti, ni))
@@ -135,7 +137,7 @@ def alphabet():
     return ev
 
 
-READONLY_OPS = {"warm", "str", "search", "getitem0", "slice", "deepcopy", "split_end_copy", "prefix_copy", "replace", "mutate", "repair", "crossover"}
+READONLY_OPS = {"copy_nochildren", "copy_noparent", "warm", "str", "search", "getitem0", "slice", "deepcopy", "split_end_copy", "prefix_copy", "replace", "mutate", "repair", "crossover"}
 
 
 def kth_resolution(body, k):
@@ -187,7 +189,7 @@ def apply(forest, ev):
                 pass
         return True, None
     n = node(ev[2]) if len(ev) > 2 and op not in ("mutate", "repair", "crossover") else None
-    if op in ("add_leaf", "drop_children", "reverse_children", "set_symbol", "set_sender", "getitem0", "slice",
+    if op in ("add_leaf", "drop_children", "reverse_children", "set_symbol", "set_sender", "getitem0", "slice", "copy_nochildren", "copy_noparent",
               "split_end_copy", "split_end_inplace", "prefix_copy", "prefix_inplace", "replace", "adopt"):
         if n is None:
             return False, None
@@ -222,6 +224,14 @@ def apply(forest, ev):
         if not n._children:
             return False, None
         n[0]
+        return True, None
+    if op in ("copy_nochildren", "copy_noparent"):
+        if len(forest) >= MAX_TREES or n.symbol.is_terminal:
+            return False, None
+        if op == "copy_nochildren":
+            forest.append(n.deepcopy(copy_children=False, copy_params=False, copy_parent=False))
+        else:
+            forest.append(n.deepcopy(copy_children=True, copy_params=False, copy_parent=False))
         return True, None
     if op == "slice":
         if not n._children:
